@@ -17,43 +17,43 @@ import (
 )
 
 type harnessOut struct {
-	Harness       string              `json:"harness"`
-	Paths         int                 `json:"paths"`
-	DistinctPaths int                 `json:"paths_with_obligations"`
-	PathEnds      map[string]int      `json:"path_ends"`
-	Obligations   int                 `json:"obligations"`
-	ObUnsat       int                 `json:"obligations_unsat"`
-	ObSat         int                 `json:"obligations_sat"`
-	ObUnknown     int                 `json:"obligations_unknown"`
-	ObConcrete    int                 `json:"obligations_concrete_true"`
-	ObLabels      map[string]int      `json:"obligation_labels"`
-	Violations    []Violation         `json:"violations"`
-	Reached       []string            `json:"reached"`
+	Harness       string                 `json:"harness"`
+	Paths         int                    `json:"paths"`
+	DistinctPaths int                    `json:"paths_with_obligations"`
+	PathEnds      map[string]int         `json:"path_ends"`
+	Obligations   int                    `json:"obligations"`
+	ObUnsat       int                    `json:"obligations_unsat"`
+	ObSat         int                    `json:"obligations_sat"`
+	ObUnknown     int                    `json:"obligations_unknown"`
+	ObConcrete    int                    `json:"obligations_concrete_true"`
+	ObLabels      map[string]int         `json:"obligation_labels"`
+	Violations    []Violation            `json:"violations"`
+	Reached       []string               `json:"reached"`
 	ReachModels   map[string][]NondetRec `json:"reach_witnesses"`
-	Funcs         []fnInfo            `json:"repo_functions_encoded"`
-	LibFuncs      int                 `json:"library_functions_encoded"`
-	Stubs         map[string]int      `json:"stubs_used"`
-	Inconclusive  map[string]int      `json:"inconclusive"`
-	Unsupported   map[string]int      `json:"unsupported"`
-	InitFails     map[string]int      `json:"init_failures"`
-	Cuts          map[string]int      `json:"cuts"`
-	Steps         int64               `json:"instructions_interpreted"`
-	Decisions     int64               `json:"decisions"`
-	SolverQueries int                 `json:"solver_queries"`
-	SolverSat     int                 `json:"solver_sat"`
-	SolverUnsat   int                 `json:"solver_unsat"`
-	SolverUnknown int                 `json:"solver_unknown"`
-	SolverErrors  int                 `json:"solver_errors"`
-	SolverSecs    float64             `json:"solver_seconds"`
-	WallSecs      float64             `json:"wall_seconds"`
-	Truncated     bool                `json:"truncated"`
-	States        int64               `json:"states"`
-	Transitions   int64               `json:"transitions"`
-	Samples       []map[string]any    `json:"samples"`
-	Observes      map[string]int      `json:"observes,omitempty"`
-	Bounds        map[string]any      `json:"bounds"`
-	Twin          bool                `json:"twin"`
-	Error         string              `json:"error,omitempty"`
+	Funcs         []fnInfo               `json:"repo_functions_encoded"`
+	LibFuncs      int                    `json:"library_functions_encoded"`
+	Stubs         map[string]int         `json:"stubs_used"`
+	Inconclusive  map[string]int         `json:"inconclusive"`
+	Unsupported   map[string]int         `json:"unsupported"`
+	InitFails     map[string]int         `json:"init_failures"`
+	Cuts          map[string]int         `json:"cuts"`
+	Steps         int64                  `json:"instructions_interpreted"`
+	Decisions     int64                  `json:"decisions"`
+	SolverQueries int                    `json:"solver_queries"`
+	SolverSat     int                    `json:"solver_sat"`
+	SolverUnsat   int                    `json:"solver_unsat"`
+	SolverUnknown int                    `json:"solver_unknown"`
+	SolverErrors  int                    `json:"solver_errors"`
+	SolverSecs    float64                `json:"solver_seconds"`
+	WallSecs      float64                `json:"wall_seconds"`
+	Truncated     bool                   `json:"truncated"`
+	States        int64                  `json:"states"`
+	Transitions   int64                  `json:"transitions"`
+	Samples       []map[string]any       `json:"samples"`
+	Observes      map[string]int         `json:"observes,omitempty"`
+	Bounds        map[string]any         `json:"bounds"`
+	Twin          bool                   `json:"twin"`
+	Error         string                 `json:"error,omitempty"`
 }
 
 var repoRoot = "/repo/"
